@@ -47,7 +47,7 @@ def check_vector(v, nformats=2, variant0="canon"):
         if prog[0]["op"] == "read_chunks":
             key = (fmt, variant, prog[0]["split"])
             if key not in _K_CACHE:
-                _K_CACHE[key] = tr.find_chunk_size(src, prog[0]["split"], True)
+                _K_CACHE[key] = tr.find_chunk_size(src, prog[0]["split"], False)
             K = _K_CACHE[key]
             if K is None:
                 continue
@@ -58,6 +58,12 @@ def check_vector(v, nformats=2, variant0="canon"):
             n += 1
         L, Ee = res[True], res[False]
         nsteps = len(prog) - 1
+        rd_l, rd_e = [bool(x) and x[0][0] == "err" and x[0][1].startswith("read:") for x in (L, Ee)]
+        if rd_l != rd_e:
+            bad.append({"what": "reading the file (whole or in chunks) fails or cuts differently in one mode only",
+                        "tags": {"format": fmt, "op": prog[0]["op"], "chunked": prog[0]["op"] == "read_chunks", "variant": variant, "kind": "read-in-%s-only" % ("eager" if rd_l else "lazy")},
+                        "vector": v, "case": {"format": fmt, "pair": pair, "prog": prog, "variant": variant}, "expected": "the same chunks in both modes", "observed": {"lazy": _short(L[0]), "eager": _short(Ee[0])}})
+            continue
         tags = {"format": fmt, "op": prog[-1]["op"], "chunked": prog[0]["op"] == "read_chunks", "variant": variant}
         case = {"format": fmt, "pair": pair, "prog": prog, "variant": variant}
         # an earlier step failed in some mode: that prefix is judged by its own vector
